@@ -176,6 +176,8 @@ type fnExec struct {
 	goCount   int
 	storeCount map[string]int
 	globals   map[string]string
+	heapElemType map[string]types.Type
+	heapDepth map[string]int
 	textPos   map[string][]token.Pos
 	anchors   map[ssa.Instruction]anchorInfo
 	usedAnchors map[*Clause]bool
@@ -183,6 +185,8 @@ type fnExec struct {
 	deferFn   map[*ssa.Defer]val
 	nreturns  int
 	measure   string
+	pendingWT [][2]interface{}
+	warnings  []string
 }
 
 type retPoint struct {
@@ -250,8 +254,46 @@ func (fx *fnExec) heapGet(st *state, name, sort string) string {
 	}
 	fx.heapSort[name] = sort
 	init := name + "!0"
-	fx.declare(init, sort)
+	if !fx.declSeen[init] {
+		fx.declare(init, sort)
+		if wf := fx.heapWF(name, init, "alloc!0"); wf != "" {
+			fx.asserts = append(fx.asserts, assertion{-1, "(assert " + wf + ")"})
+		}
+	}
 	return init
+}
+
+// heapWF: every value stored in heap array arrTerm is well-typed (ints in range, references allocated).
+func (fx *fnExec) heapWF(name, arrTerm, alloc string) string {
+	t := fx.heapElemType[name]
+	if t == nil {
+		return ""
+	}
+	switch fx.heapDepth[name] {
+	case 1:
+		w := fx.refsAllocated("(select "+arrTerm+" r)", t, alloc)
+		if w == "true" {
+			return ""
+		}
+		return "(forall ((r Int)) (! " + w + " :pattern ((select " + arrTerm + " r))))"
+	case 2:
+		w := fx.refsAllocated("(select (select "+arrTerm+" r) i)", t, alloc)
+		if w == "true" {
+			return ""
+		}
+		return "(forall ((r Int) (i Int)) (! " + w + " :pattern ((select (select " + arrTerm + " r) i))))"
+	case 3:
+		kt := fx.heapElemType["MK_"+strings.TrimPrefix(name, "MV_")]
+		if kt == nil {
+			return ""
+		}
+		w := fx.refsAllocated("(select (select "+arrTerm+" r) k)", t, alloc)
+		if w == "true" {
+			return ""
+		}
+		return "(forall ((r Int) (k " + fx.d.SortOf(kt) + ")) (! " + w + " :pattern ((select (select " + arrTerm + " r) k))))"
+	}
+	return ""
 }
 
 func (fx *fnExec) heapSet(st *state, name, sort, term string) {
@@ -307,6 +349,8 @@ func (fx *fnExec) globalTerm(name string, t types.Type) string {
 func (fx *fnExec) fieldArr(structT types.Type, i int) (string, string) {
 	st := structOf(structT)
 	name := "H_" + strings.TrimPrefix(fx.d.structNameT(structT), "S_") + "_" + st.Field(i).Name()
+	fx.heapElemType[name] = st.Field(i).Type()
+	fx.heapDepth[name] = 1
 	return name, "(Array Int " + fx.d.SortOf(st.Field(i).Type()) + ")"
 }
 
@@ -324,11 +368,15 @@ func (d *Decls) structNameT(t types.Type) string {
 
 func (fx *fnExec) cellArr(t types.Type) (string, string) {
 	s := fx.d.SortOf(t)
+	fx.heapElemType["H_cell_"+sanitize(s)] = t
+	fx.heapDepth["H_cell_"+sanitize(s)] = 1
 	return "H_cell_" + sanitize(s), "(Array Int " + s + ")"
 }
 
 func (fx *fnExec) elemsArr(t types.Type) (string, string) {
 	s := fx.d.SortOf(t)
+	fx.heapElemType["E_"+sanitize(s)] = t
+	fx.heapDepth["E_"+sanitize(s)] = 2
 	return "E_" + sanitize(s), "(Array Int (Array Int " + s + "))"
 }
 
@@ -336,6 +384,9 @@ func (fx *fnExec) mapArrs(mt *types.Map) (dom, val, dsort, vsort string) {
 	ks := fx.d.SortOf(mt.Key())
 	vs := fx.d.SortOf(mt.Elem())
 	k := sanitize(ks) + "_" + sanitize(vs)
+	fx.heapElemType["MV_"+k] = mt.Elem()
+	fx.heapDepth["MV_"+k] = 3
+	fx.heapElemType["MK_"+k] = mt.Key()
 	return "MD_" + k, "MV_" + k, "(Array Int (Array " + ks + " Bool))", "(Array Int (Array " + ks + " " + vs + "))"
 }
 
@@ -476,6 +527,27 @@ func (fx *fnExec) updatePath(base string, path []pathStep, v string) string {
 	return "(mk_" + sn + " " + strings.Join(fs, " ") + ")"
 }
 
+// refsAllocated: every reference contained in a value of type t is allocated (<= alloc).
+func (fx *fnExec) refsAllocated(term string, t types.Type, alloc string) string {
+	switch u := t.Underlying().(type) {
+	case *types.Pointer, *types.Map, *types.Chan, *types.Signature:
+		return "(<= " + term + " " + alloc + ")"
+	case *types.Slice:
+		return "(<= (sl_arr " + term + ") " + alloc + ")"
+	case *types.Struct:
+		if fx.isOpaqueStruct(t) {
+			return "true"
+		}
+		sn := fx.d.SortOf(t)
+		var cs []string
+		for i := 0; i < u.NumFields(); i++ {
+			cs = append(cs, fx.refsAllocated(fmt.Sprintf("(%s_%d %s)", sn, i, term), u.Field(i).Type(), alloc))
+		}
+		return and(cs...)
+	}
+	return "true"
+}
+
 // wellTyped returns the typing assumption for a term of Go type t.
 func (fx *fnExec) wellTyped(term string, t types.Type, alloc string) string {
 	switch u := t.Underlying().(type) {
@@ -550,6 +622,7 @@ func newFnExec(g *Gen, fn *ssa.Function, ct *Contract) *fnExec {
 		backEdge: map[[2]int]bool{}, loops: map[int]*loopInfo{}, heapSort: map[string]string{}, oblByName: map[string]*Obligation{},
 		textCount: map[string]int{}, nodeText: map[token.Pos]string{}, callCount: map[string]int{}, ufSeen: map[string]bool{},
 		assumptionsUsed: map[string]bool{}, calleesUsed: map[string]bool{}, storeCount: map[string]int{},
+		heapElemType: map[string]types.Type{}, heapDepth: map[string]int{},
 		textPos: map[string][]token.Pos{}, usedAnchors: map[*Clause]bool{}, deferArgs: map[*ssa.Defer][]val{}, deferFn: map[*ssa.Defer]val{}}
 	if fn.Pkg != nil {
 		fx.pkg = fn.Pkg.Pkg
@@ -960,6 +1033,13 @@ func (fx *fnExec) loopModified(li *loopInfo) (cells map[*ssa.Alloc]bool, locs []
 	ghosts = map[string]bool{}
 	for bi := range li.blocks {
 		for _, in := range fx.fn.Blocks[bi].Instrs {
+			if an := fx.anchorName(in); an != "" {
+				for _, gsc := range fx.ct.GhostSets {
+					if gsc.Anchor == an {
+						ghosts[gsc.Target] = true
+					}
+				}
+			}
 			switch x := in.(type) {
 			case *ssa.Alloc:
 				if !x.Heap {
@@ -1000,9 +1080,6 @@ func (fx *fnExec) loopModified(li *loopInfo) (cells map[*ssa.Alloc]bool, locs []
 							}
 						}
 					}
-				}
-				for _, gsc := range fx.ct.GhostSets {
-					ghosts[gsc.Target] = true
 				}
 			}
 		}
@@ -1137,6 +1214,9 @@ func (fx *fnExec) loopHead(li *loopInfo, st *state) *state {
 		nw := fx.fresh("h!"+l.arr, l.sort)
 		h.heap[l.arr] = nw
 		fx.heapSort[l.arr] = l.sort
+		if wf := fx.heapWF(l.arr, nw, h.alloc); wf != "" {
+			fx.assume(wf)
+		}
 		// frame: objects allocated before the loop whose refs are not stable store targets ... conservative: none
 		_ = old
 	}
